@@ -39,10 +39,11 @@ def wtot : List (Nat × Nat) → Nat
   | [] => 0
   | (_, w) :: ds => w + wtot ds
 
-/-- the loop of `weighted_average` adds `Σ value·weight` and `Σ weight` to its two accumulators and
-    never aborts -/
+/-- the loop of `weighted_average` adds `Σ weight` and `Σ value·weight` to its two accumulators and
+    never aborts.  (Accumulators in the translator's canonical order: locals of the function in the
+    order of their declaration — `weight_sum`, then `elem_weight_sum`.) -/
 theorem merge_weighted_average_loop_eq (ds : List (Nat × Nat)) (e w : Nat) :
-    KLoops.merge_weighted_average_loop ds (e, w) = some (e + wsum ds, w + wtot ds) := by
+    KLoops.merge_weighted_average_loop ds (w, e) = some (w + wtot ds, e + wsum ds) := by
   induction ds generalizing e w with
   | nil => k_defs [KLoops.merge_weighted_average_loop, wsum, wtot, Nat.add_zero]
   | cons d ds ih =>
